@@ -237,8 +237,10 @@ def _vector_field(ctx, mesh, ndim, labels, perm, array, keyorder="vdims", **kw):
             vd = ["a"]
     else:
         vd = list(CUSTOM[:ndim])
+    if keyorder == "unsorted-labels":  # component labels that are not in alphabetical order (spelling never matters)
+        vd = ["q", "c", "k", "b"][:ndim]
     vm = {vd[i]: dims[perm[i]] for i in range(ndim)}
-    if keyorder == "vdims":
+    if keyorder in ("vdims", "unsorted-labels"):
         given = vm
     elif keyorder == "reversed":
         given = dict(reversed(list(vm.items())))
@@ -533,7 +535,7 @@ def unit_combination(ctx):
     ncell = int(np.prod(n))
     probe = ctx.choose("probe", ["tracer"] + [(i, c) for i in range(ncell) for c in range(nv)])
     # the same mapping written with its keys in another order (tracer probe only: pairing is decided once per field)
-    keyorder = ctx.choose("mapping-key-order", ["vdims", "reversed", "axis-order"]) if vector and ndim > 1 and probe == "tracer" else "vdims"
+    keyorder = ctx.choose("mapping-key-order", ["vdims", "reversed", "axis-order", "unsorted-labels"]) if vector and ndim > 1 and probe == "tracer" else "vdims"
     if probe == "tracer":
         vals = C.tracer(n, nv, ctx.seed)
     else:
@@ -789,6 +791,61 @@ def unit_reuse(ctx):
             return
 
 
+def unit_relabel(ctx):
+    """The field under test itself is relabelled (vdims setter: new names, the old names in another order, names that
+    spell OTHER axes) after the operators were used once.  Component i keeps its axis (the library renames the keys of the
+    mapping), so "pairing through the mapping, not by position or label spelling" demands the same numbers as before,
+    component by axis; a refusal is accepted (the statement does not say that a relabelled field stays mapped)."""
+    ndim = ctx.choose("ndim", [3, 2])
+    perm = ctx.choose("mapping", list(itertools.permutations(range(ndim))))
+    start = ctx.choose("labels", ["default", "custom"])
+    new = ctx.choose("new-labels", ["new names", "old names rotated", "old names reversed", "names of the axes, reversed",
+                                     "unsorted names"])
+    first = ctx.choose("first", ["operators used before", "nothing"])
+    n = {2: [4, 3], 3: [4, 3, 2]}[ndim]
+    dims = _dims(ndim, "default")
+    mesh = _mesh(n, dims, GEOMS[0], None)
+    vals = C.tracer(n, ndim, ctx.seed)
+    f, vd, vm = _vector_field(ctx, mesh, ndim, start, perm, vals)
+    ref, _, _ = _vector_field(ctx, mesh, ndim, start, perm, vals.copy())
+    ops = ["div", "laplace_v"] + (["curl"] if ndim == 3 else [])
+    want = {}
+    for o in ops:
+        r = OPS[o](ref)
+        want[o] = np.array(r.array) if o == "div" else np.array(_by_axis(r)[0])
+    if first != "nothing":
+        for o in ops:
+            OPS[o](f)
+        ctx.step(len(ops))
+    old = list(f.vdims)
+    names = {"new names": ["p", "q", "r"][:ndim], "old names rotated": old[1:] + old[:1], "old names reversed": old[::-1],
+             "names of the axes, reversed": list(dims)[::-1], "unsorted names": ["q", "c", "k"][:ndim]}[new]
+    ctx.step(1, f"field.vdims = {names}")
+    raised, e = C.raises(setattr, f, "vdims", names)
+    if raised:
+        ctx.note(f"relabelling-refused:{type(e).__name__}")
+        return
+    inst = ctx.key()
+    ctx.check()
+    if not C.same_bytes(np.asarray(f.array), vals):
+        ctx.fail("relabel/values-changed-by-relabelling", f"vdims = {names}", instance=inst)
+        return
+    for o in ops:
+        ctx.step(1, o)
+        raised, r = C.raises(OPS[o], f)
+        if raised:
+            ctx.note(f"{o}-refused-after-relabelling:{type(r).__name__}")
+            continue
+        ctx.check()
+        got = np.asarray(r.array) if o == "div" else np.asarray(_by_axis(r)[0])
+        ctx.observe(np.round(got / (np.abs(want[o]).max() or 1.0), 9))
+        if got.shape != want[o].shape or not C.same_bytes(got, want[o]):
+            ctx.fail(f"Field.{o}/relabel/result-changed-by-renaming-the-components",
+                     f"vdims {old} -> {names} (mapping now {f.vdim_mapping}): {got.ravel()[:6].tolist()} before "
+                     f"{want[o].ravel()[:6].tolist()}", instance=inst)
+            return
+
+
 def units(tier):
     return [
         {"name": "poly_scalar", "fn": unit_poly_scalar, "bound": None},
@@ -796,6 +853,7 @@ def units(tier):
         {"name": "combination", "fn": unit_combination, "bound": None},
         {"name": "value_types", "fn": unit_value_types, "bound": None},
         {"name": "reuse", "fn": unit_reuse, "bound": None},
+        {"name": "relabel", "fn": unit_relabel, "bound": None},
         {"name": "identities", "fn": unit_identities, "bound": None},
         {"name": "rotation", "fn": unit_rotation, "bound": None},
         {"name": "refusals", "fn": unit_refusals, "bound": None},
